@@ -13,3 +13,18 @@ pub assume_specification [i64::wrapping_neg] (x: i64) -> (r: i64)
 pub assume_specification [usize::div_ceil] (x: usize, y: usize) -> (r: usize)
     requires y != 0,
     ensures r as int == (x as int + y as int - 1) / (y as int);
+pub assume_specification [i64::abs_diff] (x: i64, y: i64) -> (r: u64) ensures r as int == (if x >= y { x as int - y as int } else { y as int - x as int });
+pub assume_specification [u64::abs_diff] (x: u64, y: u64) -> (r: u64) ensures r as int == (if x >= y { x as int - y as int } else { y as int - x as int });
+pub assume_specification [usize::abs_diff] (x: usize, y: usize) -> (r: usize) ensures r as int == (if x >= y { x as int - y as int } else { y as int - x as int });
+pub assume_specification [i32::unsigned_abs] (x: i32) -> (r: u32) ensures r as int == (if x >= 0 { x as int } else { -(x as int) });
+pub assume_specification [i64::saturating_add] (x: i64, y: i64) -> (r: i64) ensures r as int == (if x + y > i64::MAX { i64::MAX as int } else if x + y < i64::MIN { i64::MIN as int } else { x + y });
+pub assume_specification [i64::saturating_sub] (x: i64, y: i64) -> (r: i64) ensures r as int == (if x - y > i64::MAX { i64::MAX as int } else if x - y < i64::MIN { i64::MIN as int } else { x - y });
+pub assume_specification [u64::wrapping_neg] (x: u64) -> (r: u64) ensures r as int == (if x == 0 { 0 } else { 0x1_0000_0000_0000_0000 - x });
+pub assume_specification [i64::signum] (x: i64) -> (r: i64) ensures r == (if x > 0 { 1i64 } else if x == 0 { 0i64 } else { -1i64 });
+pub assume_specification [i64::rem_euclid] (x: i64, y: i64) -> (r: i64) requires y != 0, y != -1 || x != i64::MIN ensures r as int == (x as int) % (y as int);
+pub assume_specification [u32::div_ceil] (x: u32, y: u32) -> (r: u32) requires y != 0 ensures r as int == (x as int + y as int - 1) / (y as int);
+pub assume_specification [u64::div_ceil] (x: u64, y: u64) -> (r: u64) requires y != 0 ensures r as int == (x as int + y as int - 1) / (y as int);
+pub assume_specification [i64::checked_neg] (x: i64) -> (r: Option<i64>) ensures r == (if x == i64::MIN { None::<i64> } else { Some((-(x as int)) as i64) });
+pub assume_specification [i64::checked_abs] (x: i64) -> (r: Option<i64>) ensures r == (if x == i64::MIN { None::<i64> } else { Some((if x >= 0 { x as int } else { -(x as int) }) as i64) });
+pub assume_specification [usize::is_power_of_two] (x: usize) -> (r: bool);
+pub assume_specification [i64::saturating_abs] (x: i64) -> (r: i64) ensures r as int == (if x == i64::MIN { i64::MAX as int } else if x >= 0 { x as int } else { -(x as int) });
